@@ -1,6 +1,8 @@
 package sshkeys2
 
 import (
+	"bytes"
+	"context"
 	"crypto"
 	"crypto/aes"
 	"crypto/cipher"
@@ -15,10 +17,10 @@ import (
 	"os/exec"
 	"strings"
 	"sync"
+	"time"
 	"unicode/utf8"
 
 	"golang.org/x/crypto/ssh"
-	"verif/ext"
 	"verif/mon"
 	fm "verif/ref/sshkeyfmt"
 )
@@ -74,12 +76,25 @@ func haveTool(name string) bool { _, err := exec.LookPath(name); return err == n
 // keygenY runs `ssh-keygen -y -P pass -f file` and returns the printed public
 // key blob and comment.
 func keygenY(file string, pass []byte) (blob []byte, comment string, stderr string, err error) {
-	out, se, err := ext.Run(nil, nil, "ssh-keygen", "-y", "-P", string(pass), "-f", file)
+	out, se, err := runTool("ssh-keygen", "-y", "-P", string(pass), "-f", file)
 	if err != nil {
 		return nil, "", se, err
 	}
 	_, blob, comment, err = fm.ParseAuthorizedLine(strings.TrimRight(out, "\n"))
 	return blob, comment, se, err
+}
+
+// runTool runs a witness CLI with empty stdin; a witness that does not answer
+// within two minutes is killed (that only ends the wait, it is never a verdict).
+func runTool(name string, args ...string) (string, string, error) {
+	ctx, cancel := context.WithTimeout(context.Background(), 2*time.Minute)
+	defer cancel()
+	cmd := exec.CommandContext(ctx, name, args...)
+	cmd.Stdin = bytes.NewReader(nil)
+	var o, e bytes.Buffer
+	cmd.Stdout, cmd.Stderr = &o, &e
+	err := cmd.Run()
+	return o.String(), e.String(), err
 }
 
 func writeKeyFile(path string, pemBytes []byte) error { return os.WriteFile(path, pemBytes, 0o600) }
